@@ -14,14 +14,15 @@ fields and no missing value, one target chart per source chart, source untouched
 What is proved here:
 * `cast_exact`, `cast_col_exact`, `cast_unmapped_default`, `cast_fields`  — `ConvertBase.cast` for *every* row
   labelling of the source (history independence: `cast_label_independent`);
-* `convOne_content`   — one pass of a converter body whose table entry passes `staticOk` yields exactly the source's
-  rows (shift `k` only through the shift parameter), for every source map with arbitrary labels;
+* `convOne_content`, `convert_content`, `converters_content_and_count` — a converter whose table entry passes
+  `staticOk` yields, chart by chart, exactly the source's rows (shift `k` only through the shift parameter), for
+  every source with arbitrary labels and any number of maps, through all five loop shapes;
 * `one_per_source`    — every good loop shape returns one chart per source map;
 * `table_*`           — by `decide` over the generated table: every entry passes `staticOk` (hits←hits, holds←holds,
   bpms←bpms with the identity column mapping, the declared target class, svs for osu↔Quaver), metadata provenance,
-  loop shapes, shift parameters, the label-aligned entries and the `[]` defaults (exactly where findings N08a and
-  D08 sit);
-* counterexample theorems for D08, N08a, D11 (mechanism), D13 (shape).
+  loop shapes, shift parameters, no label-aligned entry (D27 repaired) and the `[]` defaults (exactly where finding
+  D08 sits);
+* counterexample theorems for D08, D27 / D11 (the label-aligned assignment, on a hand-written entry), D13 (shape).
 `untouched` is not a theorem: the model is functional; aliasing is runtime behaviour checked by (S) on every case.
 -/
 import Reamber.Lemmas.Convert
@@ -253,8 +254,9 @@ theorem table_shift_params : (converters.filter (·.shiftParam.isSome)).map (fun
     [("O2JToBMS.convert", some "move_right_by", some 1), ("OsuToBMS.convert", some "move_right_by", some 0),
      ("QuaToBMS.convert", some "move_right_by", some 0)] := by decide +kernel
 
-/-- the only label-aligned mapping entries are `BMSToOsu`'s `hitsound_file` (finding N08a) -/
-theorem table_labels_free : ∀ c ∈ converters, labelsFree c = true ∨ c.name = "BMSToOsu.convert" := by decide +kernel
+/-- no mapping entry of any of the 17 entry points is assigned by row label (D27, `BMSToOsu`'s `hitsound_file`,
+is repaired: a Series-valued entry reappearing anywhere breaks this obligation) -/
+theorem table_labels_free : ∀ c ∈ converters, labelsFree c = true := by decide +kernel
 
 /-- a `[]` default (→ NaN, finding D08) is declared exactly by the list classes the five converters into Quaver build -/
 theorem table_list_defaults : ∀ c ∈ converters, tgtHasListDefault tables c = (c.tgtGame == "qua") := by decide +kernel
@@ -284,22 +286,54 @@ theorem d08_counterexample :
     verdictOf "BMSToQua.convert" ⟨[], [exBmsMap [0, 1]]⟩ 0 = some ⟨true, true, true, false, true⟩ := by
   decide +kernel
 
-/-- **N08a** (open): `BMSToOsu` assigns `hitsound_file` by row label.  Fresh labels: all clauses hold … -/
-theorem n08a_fresh_ok :
-    verdictOf "BMSToOsu.convert" ⟨[], [exBmsMap [0, 1]]⟩ 0 = some ⟨true, true, true, true, true⟩ := by
+/-- `BMSToOsu` as it was before D27 was repaired, written out by hand (not taken from the generated table):
+`hitsound_file` is the pandas Series `bms.<list>.sample.apply(str, args={"ascii"})`, assigned by row label -/
+def alignedBmsToOsu : Conv :=
+  { name := "BMSToOsu.convert (label-aligned hitsound_file)", srcGame := "bms", tgtGame := "osu",
+    param := "bms", loopVar := none, tgtMapClass := "OsuMap", shape := .single,
+    casts := [
+      ⟨"osu", "hits", "bms", "hits", "OsuHitList",
+        [("offset", .attr "offset"), ("column", .attr "column"), ("hitsound_file", .seriesStr "hits" "sample")]⟩,
+      ⟨"osu", "holds", "bms", "holds", "OsuHoldList",
+        [("offset", .attr "offset"), ("column", .attr "column"), ("length", .attr "length"),
+         ("hitsound_file", .seriesStr "holds" "sample")]⟩,
+      ⟨"osu", "bpms", "bms", "bpms", "OsuBpmList", [("offset", .attr "offset"), ("bpm", .attr "bpm")]⟩],
+    shiftParam := none, shiftDefault := none,
+    metas := [⟨"map", "title", .decoded (.attr "bms" "title")⟩, ⟨"map", "version", .decoded (.attr "bms" "version")⟩,
+              ⟨"map", "artist", .decoded (.attr "bms" "artist")⟩],
+    unparsed := [] }
+
+def verdictOfConv (c : Conv) (src : Src) (k : Int) : Option Verdict :=
+  (convert tables c src k).toOption.map (specAll tables c.srcGame c.tgtGame c.tgtMapClass src k)
+
+/-- **D27** (repaired; mechanism of D11): a mapping entry that is a pandas Series is assigned by row label.
+The entry passes every static content check (`staticOk`) — only `labelsFree` tells it apart … -/
+theorem d27_static : staticOk tables alignedBmsToOsu = true ∧ labelsFree alignedBmsToOsu = false := by
   decide +kernel
 
-/-- … labels `1, 2` (the chart after `hits.after(0)` dropped its first row): a NaN appears. -/
-theorem n08a_counterexample :
-    verdictOf "BMSToOsu.convert" ⟨[], [exBmsMap [1, 2]]⟩ 0 = some ⟨true, true, true, false, true⟩ := by
+/-- … with fresh labels all clauses hold … -/
+theorem d27_fresh_ok :
+    verdictOfConv alignedBmsToOsu ⟨[], [exBmsMap [0, 1]]⟩ 0 = some ⟨true, true, true, true, true⟩ := by
+  decide +kernel
+
+/-- … labels `1, 2` (the chart after `hits.after(0)` dropped its first row): a NaN appears … -/
+theorem d27_counterexample :
+    verdictOfConv alignedBmsToOsu ⟨[], [exBmsMap [1, 2]]⟩ 0 = some ⟨true, true, true, false, true⟩ := by
   decide +kernel
 
 /-- … duplicate labels: the conversion raises (`ValueError`), no chart is produced. -/
-theorem n08a_duplicate_labels_raise :
-    verdictOf "BMSToOsu.convert" ⟨[], [exBmsMap [3, 3]]⟩ 0 = none := by
+theorem d27_duplicate_labels_raise :
+    verdictOfConv alignedBmsToOsu ⟨[], [exBmsMap [3, 3]]⟩ 0 = none := by
   decide +kernel
 
-/-- the mechanism of **D11** (repaired in `cast`, still present for Series-valued entries): label alignment of
+/-- the repaired converter (generated table) is exact on all three labellings -/
+theorem d27_repaired_ok :
+    verdictOf "BMSToOsu.convert" ⟨[], [exBmsMap [0, 1]]⟩ 0 = some ⟨true, true, true, true, true⟩ ∧
+    verdictOf "BMSToOsu.convert" ⟨[], [exBmsMap [1, 2]]⟩ 0 = some ⟨true, true, true, true, true⟩ ∧
+    verdictOf "BMSToOsu.convert" ⟨[], [exBmsMap [3, 3]]⟩ 0 = some ⟨true, true, true, true, true⟩ := by
+  decide +kernel
+
+/-- the mechanism of **D11** / **D27** (both repaired): label alignment of
 values labelled `1, 2` into a buffer labelled `0, 1` -/
 theorem label_alignment_counterexample :
     (alignTo [0, 1] [1, 2] [.str "a", .str "b"]).toOption = some [.nan, .str "a"] := by decide +kernel
@@ -413,9 +447,8 @@ theorem listFor_of_static (T : Tables) (c : Conv) (cur : SrcMap) (attr : String)
 `staticOk` and has no shift parameter, and a source map with *arbitrary row labels* whose lists are well formed:
 if the pass succeeds, the target chart's hits `(offset, column)`, holds `(offset, column, length)` and tempo points
 `(offset, bpm)` are exactly the source's.  With `table_static_ok` this covers 14 of the 17 entry points; for the
-three converters into BMS (`stack().column += k`) the statement is `convOne_content` + the restack step, which is
-covered by the correspondence check and the examples below but not proved (`_partial`). -/
-theorem convOne_content_partial (T : Tables) (c : Conv) (src : Src) (cur : SrcMap) (k : Int) (t : TChart)
+three converters into BMS (`stack().column += k`) see `convOne_content` below. -/
+theorem convOne_content_noshift (T : Tables) (c : Conv) (src : Src) (cur : SrcMap) (k : Int) (t : TChart)
     (hst : staticOk T c = true) (hns : c.shiftParam = none) (hok : srcMapOk cur = true)
     (h : convOne T c src cur k = .ok t) : contentOk 0 cur t = true := by
   simp only [staticOk, Bool.and_eq_true] at hst
@@ -468,5 +501,310 @@ example :
                        [("title", "t"), ("artist", "a"), ("creator", "c"), ("difficulty_name", "d")], ""⟩
     verdictOf "QuaToBMS.convert" ⟨[], [m]⟩ 2 = some ⟨true, true, true, true, true⟩ ∧
     verdictOf "QuaToBMS.convert" ⟨[], [m]⟩ 0 = some ⟨true, true, true, true, true⟩ := by decide +kernel
+
+/-! ## the shifted case (`stack().column += k`) and all loop shapes -/
+
+theorem addCol_lookup (k : Int) (name : String) :
+    ∀ (cols : List (String × List Cell)),
+      List.lookup name (cols.map fun p => if p.1 == "column" then (p.1, p.2.map (addCell k)) else p)
+        = if name == "column" then (cols.lookup name).map (List.map (addCell k)) else cols.lookup name
+  | [] => by simp [List.lookup]
+  | (c, v) :: rest => by
+    have ih := addCol_lookup k name rest
+    by_cases h3 : (c == "column") = true
+    · have hc3 : c = "column" := by simpa using h3
+      have hhead : (((c, v) :: rest).map fun p => if p.1 == "column" then (p.1, p.2.map (addCell k)) else p)
+          = (c, v.map (addCell k)) :: rest.map (fun p => if p.1 == "column" then (p.1, p.2.map (addCell k)) else p) := by
+        simp
+        exact fun h => absurd hc3 h
+      rw [hhead]
+      by_cases hc : (name == c) = true
+      · have hn : name = c := by simpa using hc
+        have hn3 : (name == "column") = true := by rw [hn]; exact h3
+        rw [lookup_cons_eq name c _ _ hc, lookup_cons_eq name c _ _ hc, if_pos hn3]; rfl
+      · have hc' : (name == c) = false := by simpa using hc
+        rw [lookup_cons_ne name c _ _ hc', lookup_cons_ne name c _ _ hc']
+        exact ih
+    · have h3' : (c == "column") = false := by simpa using h3
+      have hhead : (((c, v) :: rest).map fun p => if p.1 == "column" then (p.1, p.2.map (addCell k)) else p)
+          = (c, v) :: rest.map (fun p => if p.1 == "column" then (p.1, p.2.map (addCell k)) else p) := by
+        simp
+        exact fun h => absurd h (by simpa using h3')
+      rw [hhead]
+      by_cases hc : (name == c) = true
+      · have hn : name = c := by simpa using hc
+        have hn3 : (name == "column") = false := by rw [hn]; exact h3'
+        rw [lookup_cons_eq name c _ _ hc, lookup_cons_eq name c _ _ hc, if_neg (by simp [hn3])]
+      · have hc' : (name == c) = false := by simpa using hc
+        rw [lookup_cons_ne name c _ _ hc', lookup_cons_ne name c _ _ hc']
+        exact ih
+
+/-- a column of a list after `stack().column += k` and the relabelling -/
+theorem restacked_col (k : Int) (s0 : Nat) (f : Frame) (name : String) :
+    (relabel s0 (addCol k f)).col? name
+      = if name == "column" then (f.col? name).map (List.map (addCell k)) else f.col? name := by
+  simp only [Frame.col?, relabel, addCol]
+  exact addCol_lookup k name f.cols
+
+theorem restacked_nrows (k : Int) (s0 : Nat) (f : Frame) : (relabel s0 (addCol k f)).nrows = f.nrows := by
+  simp [relabel, Frame.nrows, addCol]
+
+theorem getD_map_addCell (k : Int) (c : List Cell) (i : Nat) :
+    (c.map (addCell k)).getD i .nan = addCell k (c.getD i .nan) := by
+  simp only [List.getD_eq_getElem?_getD, List.getElem?_map]
+  cases c[i]? <;> rfl
+
+theorem projRows_restacked_hits (k : Int) (s0 : Nat) (f : Frame) (h : (colsOf f keysHits).isSome = true) :
+    projRows (relabel s0 (addCol k f)) keysHits = (projRows f keysHits).map (List.map (shiftRow k)) := by
+  have e1 : ("offset" == "column") = false := by decide
+  have e2 : ("column" == "column") = true := by decide
+  unfold projRows
+  rw [restacked_nrows]
+  simp only [keysHits, colsOf, restacked_col, e1, e2] at h ⊢
+  cases ho : f.col? "offset" with
+  | none => simp [ho] at h
+  | some co =>
+    cases hc : f.col? "column" with
+    | none => simp [ho, hc] at h
+    | some cc =>
+      simp [rowsOf, shiftRow]
+      intro a _
+      cases cc[a]? <;> rfl
+
+theorem projRows_restacked_holds (k : Int) (s0 : Nat) (f : Frame) (h : (colsOf f keysHolds).isSome = true) :
+    projRows (relabel s0 (addCol k f)) keysHolds = (projRows f keysHolds).map (List.map (shiftRow k)) := by
+  have e1 : ("offset" == "column") = false := by decide
+  have e2 : ("column" == "column") = true := by decide
+  have e3 : ("length" == "column") = false := by decide
+  unfold projRows
+  rw [restacked_nrows]
+  simp only [keysHolds, colsOf, restacked_col, e1, e2, e3] at h ⊢
+  cases ho : f.col? "offset" with
+  | none => simp [ho] at h
+  | some co =>
+    cases hc : f.col? "column" with
+    | none => simp [ho, hc] at h
+    | some cc =>
+      cases hl : f.col? "length" with
+      | none => simp [ho, hc, hl] at h
+      | some cl =>
+        simp [rowsOf, shiftRow]
+        intro a _
+        cases cc[a]? <;> rfl
+
+theorem projRows_restacked_bpms (k : Int) (s0 : Nat) (f : Frame) :
+    projRows (relabel s0 (addCol k f)) keysBpms = projRows f keysBpms := by
+  have e1 : ("offset" == "column") = false := by decide
+  have e4 : ("bpm" == "column") = false := by decide
+  unfold projRows
+  rw [restacked_nrows]
+  simp only [keysBpms, colsOf, restacked_col, e1, e4]
+  simp
+
+theorem sameRows_of_shift (t s : Frame) (ks : List String) (k : Int)
+    (h : projRows t ks = (projRows s ks).map (List.map (shiftRow k)))
+    (hs : (colsOf s ks).isSome = true) : sameRows t s ks k = true := by
+  unfold sameRows
+  rw [h]
+  obtain ⟨cs, hcs⟩ := Option.isSome_iff_exists.mp hs
+  simp only [projRows, hcs, Option.map_some]
+  exact List.isPerm_iff.mpr (List.Perm.refl _)
+
+theorem restacked_congr (k : Int) (s0 s1 : Nat) (f g : Frame) (ks : List String)
+    (hc : ∀ key ∈ ks, f.col? key = g.col? key) (hn : f.nrows = g.nrows) :
+    projRows (relabel s0 (addCol k f)) ks = projRows (relabel s1 (addCol k g)) ks := by
+  apply projRows_congr
+  · intro key hk
+    rw [restacked_col, restacked_col, hc key hk]
+  · rw [restacked_nrows, restacked_nrows, hn]
+
+/-- the shift a converter applies: its argument when it has a shift parameter, else none -/
+def effShift (c : Conv) (k : Int) : Int := if c.shiftParam.isSome then k else 0
+
+/-- **Content preserved by one pass of a converter body** (model ⊨ `contentOk`), all 17 entry points. -/
+theorem convOne_content (T : Tables) (c : Conv) (src : Src) (cur : SrcMap) (k : Int) (t : TChart)
+    (hst : staticOk T c = true) (hok : srcMapOk cur = true)
+    (h : convOne T c src cur k = .ok t) : contentOk (effShift c k) cur t = true := by
+  cases hsp : c.shiftParam with
+  | none =>
+    have : effShift c k = 0 := by simp [effShift, hsp]
+    rw [this]
+    exact convOne_content_noshift T c src cur k t hst hsp hok h
+  | some p =>
+    have hk : effShift c k = k := by simp [effShift, hsp]
+    rw [hk]
+    simp only [staticOk, Bool.and_eq_true] at hst
+    obtain ⟨⟨⟨⟨⟨⟨_, _⟩, hH⟩, hL⟩, hB⟩, _⟩, _⟩ := hst
+    simp only [srcMapOk, Bool.and_eq_true] at hok
+    obtain ⟨_, hlists⟩ := hok
+    unfold contentOk
+    split at hlists
+    · rename_i sh sl sb eh el eb
+      simp only [Bool.and_eq_true] at hlists
+      obtain ⟨⟨kh, kl⟩, kb⟩ := hlists
+      try simp only [eh, el, eb]
+      unfold convOne at h
+      split at h
+      · cases h
+      · split at h
+        · rename_i fh fl fb fs me rh rl rb _ _
+          simp only [hsp, Except.ok.injEq] at h
+          subst h
+          obtain ⟨ch, nh⟩ := listFor_of_static T c cur "hits" keysHits fh sh hH eh rh
+          obtain ⟨cl, nl⟩ := listFor_of_static T c cur "holds" keysHolds fl sl hL el rl
+          obtain ⟨cb, nb⟩ := listFor_of_static T c cur "bpms" keysBpms fb sb hB eb rb
+          simp only [Bool.and_eq_true]
+          refine ⟨⟨sameRows_of_shift _ _ _ _ ?_ kh, sameRows_of_shift _ _ _ _ ?_ kl⟩, sameRows_of_eq _ _ _ ?_ kb⟩
+          · rw [restacked_congr k _ 0 fh sh keysHits ch nh]
+            exact projRows_restacked_hits k 0 sh kh
+          · rw [restacked_congr k _ 0 fl sl keysHolds cl nl]
+            exact projRows_restacked_holds k 0 sl kl
+          · rw [projRows_restacked_bpms]
+            exact projRows_congr _ _ _ cb nb
+        all_goals cases h
+    · cases hlists
+
+/-! ### lifting through the loop shapes -/
+
+theorem mapE_zip_all {α β γ} (f : α → Except Err β) (Q : α → β → Bool) (G : β → γ) :
+    ∀ (l : List α) (r : List β), mapE f l = .ok r → (∀ a ∈ l, ∀ b, f a = .ok b → Q a b = true) →
+      (l.zip (r.map fun t => (G t, t))).all (fun p => Q p.1 p.2.2) = true
+  | [], r, h, _ => by simp
+  | a :: t, r, h, hq => by
+    simp only [mapE] at h
+    split at h
+    · cases h
+    · rename_i b hb
+      split at h
+      · cases h
+      · rename_i r' hr
+        simp only [Except.ok.injEq] at h
+        subst h
+        simp only [List.map_cons, List.zip_cons_cons, List.all_cons, Bool.and_eq_true]
+        exact ⟨hq a (by simp) b hb, mapE_zip_all f Q G t r' hr (fun a' ha' => hq a' (by simp [ha']))⟩
+
+theorem pairs_singletons (il : Bool) (ts : List TChart) :
+    (Out.mk il (ts.map fun t => ⟨[], [t]⟩)).pairs = ts.map fun t => ((⟨[], [t]⟩ : TGroup), t) := by
+  induction ts with
+  | nil => rfl
+  | cons a t ih => simpa [Out.pairs, List.flatMap_cons] using ih
+
+theorem pairs_merged (il : Bool) (sm : List (String × String)) (ts : List TChart) :
+    (Out.mk il [⟨sm, ts⟩]).pairs = ts.map fun t => ((⟨sm, ts⟩ : TGroup), t) := by
+  simp [Out.pairs]
+
+theorem convSet_inv (T : Tables) (c : Conv) (src : Src) (k : Int) (m : SrcMap) (g : TGroup)
+    (h : convSet T c src k m = .ok g) : ∃ t sm, g = ⟨sm, [t]⟩ ∧ convOne T c src m k = .ok t := by
+  unfold convSet at h
+  split at h
+  · cases h
+  · rename_i t ht
+    split at h
+    · cases h
+    · rename_i sm _
+      simp only [Except.ok.injEq] at h
+      exact ⟨t, sm, h.symm, ht⟩
+
+theorem mapE_convSet_zip_all (T : Tables) (c : Conv) (src : Src) (k : Int) (Q : SrcMap → TChart → Bool) :
+    ∀ (ms : List SrcMap) (gs : List TGroup), mapE (convSet T c src k) ms = .ok gs →
+      (∀ m ∈ ms, ∀ t, convOne T c src m k = .ok t → Q m t = true) →
+      (ms.zip (gs.flatMap fun g => g.charts.map fun t => (g, t))).all (fun p => Q p.1 p.2.2) = true
+  | [], gs, h, _ => by simp
+  | m :: rest, gs, h, hq => by
+    simp only [mapE] at h
+    split at h
+    · cases h
+    · rename_i g hg
+      split at h
+      · cases h
+      · rename_i r hr
+        simp only [Except.ok.injEq] at h
+        subst h
+        obtain ⟨t, sm, rfl, ht⟩ := convSet_inv T c src k m g hg
+        simp only [List.flatMap_cons, List.map_cons, List.map_nil, List.singleton_append, List.zip_cons_cons,
+          List.all_cons, Bool.and_eq_true]
+        exact ⟨hq m (by simp) t ht,
+          mapE_convSet_zip_all T c src k Q rest r hr (fun m' hm' => hq m' (by simp [hm']))⟩
+
+/-- **Content preserved by every converter** (model ⊨ `specAll.content`): for a table entry that passes `staticOk`
+(all 17 do: `table_static_ok`), every source whose maps are well formed — arbitrary row labels, any number of maps —
+and every shift argument: if the conversion succeeds, chart `i` of the result holds exactly the hits, holds and
+tempo points of source map `i`, the column shifted by the shift argument only where the converter has one. -/
+theorem convert_content (T : Tables) (c : Conv) (src : Src) (k : Int) (out : Out)
+    (hst : staticOk T c = true) (hsrc : ∀ m ∈ src.maps, srcMapOk m = true)
+    (h : convert T c src k = .ok out) :
+    (specAll T c.srcGame c.tgtGame c.tgtMapClass src (effShift c k) out).content = true := by
+  show (src.maps.zip out.pairs).all (fun p => contentOk (effShift c k) p.1 p.2.2) = true
+  have hq : ∀ m ∈ src.maps, ∀ t, convOne T c src m k = .ok t → contentOk (effShift c k) m t = true :=
+    fun m hm t ht => convOne_content T c src m k t hst (hsrc m hm) ht
+  unfold convert at h
+  split at h
+  · -- single
+    split at h
+    · rename_i m hm
+      split at h
+      · cases h
+      · rename_i t ht
+        simp only [Except.ok.injEq] at h
+        subst h
+        simp only [hm, Out.pairs, List.flatMap_cons, List.flatMap_nil, List.map_cons, List.map_nil, List.append_nil,
+          List.zip_cons_cons, List.zip_nil_right, List.all_cons, List.all_nil, Bool.and_true]
+        exact hq m (by simp [hm]) t ht
+    · cases h
+  · -- singleSet
+    split at h
+    · rename_i m hm
+      split at h
+      · cases h
+      · rename_i g hg
+        simp only [Except.ok.injEq] at h
+        subst h
+        obtain ⟨t, sm, rfl, ht⟩ := convSet_inv T c src k m g hg
+        simp only [hm, Out.pairs, List.flatMap_cons, List.flatMap_nil, List.map_cons, List.map_nil, List.append_nil,
+          List.zip_cons_cons, List.zip_nil_right, List.all_cons, List.all_nil, Bool.and_true]
+        exact hq m (by simp [hm]) t ht
+    · cases h
+  · -- listOfMaps
+    split at h
+    · cases h
+    · rename_i ts hts
+      simp only [Except.ok.injEq] at h
+      subst h
+      rw [pairs_singletons]
+      exact mapE_zip_all _ _ _ _ ts hts hq
+  · -- listOfSets
+    split at h
+    · cases h
+    · rename_i gs hgs
+      simp only [Except.ok.injEq] at h
+      subst h
+      exact mapE_convSet_zip_all T c src k _ _ gs hgs hq
+  · -- mergedSet
+    split at h
+    · cases h
+    · rename_i ts hts
+      split at h
+      · cases h
+      · rename_i sm _
+        simp only [Except.ok.injEq] at h
+        subst h
+        rw [pairs_merged]
+        exact mapE_zip_all _ _ _ _ ts hts hq
+  · -- mergedSetInLoop: excluded by staticOk
+    simp only [staticOk, Bool.and_eq_true] at hst
+    simp_all [goodShape]
+  · cases h
+  · cases h
+
+/-- **The shipped converters**: for each of the 17 generated entries, every well-formed source (any labels, any
+number of maps), every shift argument: a successful conversion returns one chart per source map, and chart `i`
+holds exactly the hits / holds / tempo points of source map `i` (column shifted by the shift argument only). -/
+theorem converters_content_and_count : ∀ c ∈ converters, ∀ (src : Src) (k : Int) (out : Out),
+    (∀ m ∈ src.maps, srcMapOk m = true) → convert tables c src k = .ok out →
+    (specAll tables c.srcGame c.tgtGame c.tgtMapClass src (effShift c k) out).content = true ∧
+    (specAll tables c.srcGame c.tgtGame c.tgtMapClass src (effShift c k) out).onePer = true := by
+  intro c hc src k out hsrc h
+  exact ⟨convert_content tables c src k out (table_static_ok c hc) hsrc h,
+         one_per_source tables c src k out (table_shapes c hc) h⟩
 
 end Reamber.Convert
